@@ -150,6 +150,12 @@ def build_scalar(d):
 
 def eval_expr(d):
     """build the real objects and apply the real operators"""
+    if 'setz' in d:
+        obj = eval_expr(d['e'])
+        if d['setz'].get('ztype'):
+            obj.z_type = d['setz']['ztype']
+        obj.z = fl(d['setz']['z'])
+        return obj
     if 'prim' in d:
         return build_prim(d)
     if 'scalar' in d:
@@ -192,7 +198,7 @@ def fill_ss(d, with_ss=True):
             leaf['ss'] = qs(np.asarray(m.sampleset(), dtype=float).tolist())
         if 'unit_name' in leaf:
             leaf['unit'] = model_flux_unit(leaf['unit_name'])
-    for k in ('l', 'r', 'src', 'band'):
+    for k in ('l', 'r', 'src', 'band', 'e'):
         if k in d and isinstance(d[k], dict):
             fill_ss(d[k], with_ss)
     return d
@@ -201,7 +207,7 @@ def fill_ss(d, with_ss=True):
 def walk_prims(d):
     if 'prim' in d:
         yield d
-    for k in ('l', 'r', 'src', 'band'):
+    for k in ('l', 'r', 'src', 'band', 'e'):
         if k in d and isinstance(d[k], dict):
             yield from walk_prims(d[k])
 
